@@ -1,20 +1,87 @@
 """Table behind MANIFEST.json (tools/gen_manifest.py). One entry per property: either a registered check or a reason."""
 ENGINES = [
-    {"name": "pyvc", "path": "vf/pyvc", "serves_properties": [],
-     "kind_free_text": "home-built deductive verifier: symbolic execution of the real Python AST (re-read from /repo each run), "
-                       "sidecar contracts and loop invariants, obligations discharged by z3 (cvc5 for z3's unknowns), Lean 4 for string lemmas"},
-    {"name": "rtc", "path": "vf/bounded", "serves_properties": [],
-     "kind_free_text": "bounded stand-in: the same contracts evaluated at run time on the real code over an exhaustively enumerated small scope "
-                       "(always labelled bounded, never counted as proved)"},
+    {"name": "pyvc", "path": "vf/pyvc", "serves_properties": [f"C{i:02d}" for i in range(1, 21)],
+     "kind_free_text": "home-built deductive verifier: symbolic execution of the real Python AST (re-read from /repo each run), sidecar contracts "
+                       "and loop invariants (vf/contracts), obligations discharged by z3 (cvc5 for z3's unknowns), Lean 4 for string / finite-sum lemmas; "
+                       "AST analyses (vf/static) decide frame, provenance and call-site obligations"},
+    {"name": "rtc", "path": "vf/bounded", "serves_properties": [f"C{i:02d}" for i in range(1, 21)],
+     "kind_free_text": "bounded stand-in: run-time contract checks of the real code against first-principles oracles over an exhaustively enumerated small "
+                       "scope plus seeded samples (always labelled bounded, never counted as proved)"},
 ]
+
+T = "contract-based deductive verification of the real source (pyvc VCs + z3/cvc5{extra}); bounded run-time-contract stand-in for the clauses no contract reaches"
+_B = " X (bounded, never counted as proved): "
+
+
+def _c(text, extra="", note="", category="other"):
+    return dict(category=category, technique=T.format(extra=extra), text=text, note=note)
+
+
 CHECKS = {
-    "C14": dict(category="other", technique="contract-based deductive verification (pyvc VCs from the real AST + z3) with a bounded run-time-contract stand-in",
-                text="P: _get_labels_for_confusion_matrix is verified for every number of distinct values, pos_label given/None, int and str encodings "
-                     "(postconditions from the property: positive label last, raises exactly for unsupported encodings) and the four rate functions are "
-                     "verified to return their own cell of sklearn's row-normalised confusion matrix with the caller's weights and labels (wiring obligations "
-                     "against an assumed dependency contract). X (bounded): all label/prediction vectors up to n=3 (quick) / 5 (thorough) x 7 encodings x weights "
-                     "compared with exact first-principles rationals, incl. scalar-ness, range, complements and role swap.",
-                note="Trusted: sklearn.metrics.confusion_matrix and numpy.unique contracts (assumed, exercised by the stand-in)."),
+    "C01": _c("P: AnnotatedMetricFunction.__call__ hands the wrapped metric only columns of the same (group) frame; _construct_annotated_metric_function writes one column "
+              "name_param per given per-sample parameter and maps the keyword to it; _extract_result; lemma 'column key injective' (z3 strings) is REFUTED and replayed on MetricFrame "
+              "= known finding." + _B + "tracer metrics through the real MetricFrame over all group structures of small datasets (by_group cells, product index, NaN for empty "
+              "combinations, overall per control combination). groupby/apply/reindex of _apply_functions have no deductive contract.",
+              note="Trusted: pandas column selection / list / asarray copy positionally; the bounded part decides everything that runs inside pandas."),
+    "C02": _c("P: ratio_sub_one = min(r,1/r) for r>0 (the r<0 clause from the property text is refuted with r=-1/2 and replayed: known finding); lemmas agg.* (difference>=0, "
+              "ratio in [0,1], between<=2*to_overall, weighted-mean sandwich) for k<=4 groups." + _B + "group_min/max/difference/ratio for both methods and errors settings on value "
+              "tables incl. 0, negatives, NaN, control strata, against the formulas of the statement."),
+    "C03": _c("P: each of the six named fairness metrics is verified against the callee contracts of MetricFrame/aggregates/base rates (right base metric, aggregate, caller's "
+              "method and sample_weight under key sample_weight for every rate; equalized odds: max/min or mean, other agg raises); _DerivedMetric.__call__ keyword routing and "
+              "dispatch." + _B + "every named and generated metric against direct row loops with exact rationals on all small datasets."),
+    "C04": _c("P: _calculate_tradeoff_points (every row is a threshold rule with exactly its metrics, both constant rules present, degenerate group raises), hull (coverage, strict "
+              "concavity), _get_interpolation_indices, _interpolate_curve, simple-constraints optimisation (one shared i_best for any number of groups), equalized-odds entries "
+              "(p_ignore mixing puts every group on the same FPR/TPR point), ThresholdOperation, the counts callees - all for unbounded input sizes." + _B + "real fit on all small "
+              "multisets of (group,label,score) rows: expected constrained metric equal across groups.",
+              note="Trusted: pandas sort_values/itertuples/DataFrame construction, np.searchsorted/where/fancy indexing contracts; floats as reals."),
+    "C05": _c("P: hull coverage + concavity from the real source, both constant rules present, i_best = first maximiser of the frequency-weighted objective; lemmas hull.support and "
+              "jensen.mix (ghost-loop VCs) turn coverage into optimality among all mixtures with the same mean abscissa." + _B + "LP reference (scipy linprog) over the enumerated rules "
+              "for every grid value on small datasets.", note="Completeness of the rule enumeration (every cut has a row) is bounded only."),
+    "C06": _c("P: _combine_event_and_control (null event stays null), UtilityParity.__init__, ErrorRate.__init__, the U-matrix loop of load_data for any number of (event,group) pairs "
+              "(point-wise column formulas), gamma = -(U^T(utility_diff*h+u0))/n, bound; lemmas gamma.mean and sum linearity (induction base/step)." + _B + "real load_data/gamma for all "
+              "five parity moments x bounds x control features on all small datasets against row-loop rationals; BoundedGroupLoss, ErrorRate.",
+              note="Trusted: pandas groupby(...).size()/n gives the event / group-event probabilities."),
+    "C07": _c("P: signed_weights = utility_diff*(U lambda) with the same U as gamma (adjoint), project_lambda point-wise, _Lagrangian._call_oracle (labels 1[w>0], weights n|w|/sum|w|, "
+              "constant classifier iff one relabelled value); lemmas lagrangian.project, best_response, errorrate.difference; Lean/Mathlib reduction_identity (thorough tier)." + _B +
+              "the identity on unit lambdas/predictors and random ones through the real moments; recording learner.", extra=", Lean 4 + Mathlib"),
+    "C08": _c("P: _GapResult.gap, _Lagrangian._eval, eval_gap, and the whole iteration/selection logic of ExponentiatedGradient.fit over a ghost view of gaps/Qs (any max_iter, LP step "
+              "on/off): best_gap_ = gap of the returned iteration, within 1e-8 of the smallest, weights_ = its distribution, early stop => best_gap_ < nu + 1e-8; lemma saddle." + _B +
+              "real fit with an exact cost-sensitive learner over an enumerable class against an LP reference.", note="Vectors are opaque in the EG VCs; best_h / solve_linprog are assumed callee contracts."),
+    "C09": _c("P: GridSearch.__init__, the grid loop of fit for any number of grid columns (relabel/reweight per column, records belong to the estimator trained in that iteration incl. "
+              "closure late binding, best_idx_ = first minimiser of the trade-off), predict/predict_proba delegation." + _B + "real fit with an exact learner: grid count/distinctness/"
+              "sign/L1 bound, best response, recorded values, argmin.", note="The lattice generator _GridGenerator is bounded only."),
+    "C10": _c("P: InterpolatedThresholder._pmf_predict for any number of fitted groups (point-wise formula, valid distribution, depends only on score and group), "
+              "ExponentiatedGradient.predict wiring (one uniform draw per row; regression: probabilities re-indexed by the value columns), ThresholdOperation.__call__; lemmas "
+              "monotone-in-score and Bernoulli." + _B + "fitted models: distributions, reproducibility, determinism at 0/1, frequency bands, regression predictor frequencies.",
+              note="Statistical quality of numpy's generator is assumed."),
+    "C11": _c("P: scalar shape of selection_rate / mean_prediction for a single weighted row (all n>=1); lemma wsum.multiplicity (k copies, scaling, unit weights) over the weighted-sum "
+              "normal forms." + _B + "weight-k vs k-copies, scaling, ones-vs-omitted for the base metrics, inside MetricFrame per group and for the named metrics on small datasets."),
+    "C12": _c("P: _validate_and_reformat_input returns pandas objects with a default index built from label-free arrays (12 rank patterns, any sizes); index-provenance type-state over 18 "
+              "entry points: no caller label reaches an aligning pandas operation." + _B + "every public result computed from lists vs every accepted container with shuffled/offset/"
+              "duplicated/string index labels; row permutations; label bijections."),
+    "C13": _c("P: the per-row pipeline of _merge_columns is extracted from the real source by the symbolic executor and instantiates the Lean 4 theorems merge_injective / repl_repl "
+              "(strings of any length over any alphabet); the validator merges iff >1 column; every moment, ThresholdOptimizer.fit and _pmf_predict obtain groups from that validator." +
+              _B + "adversarial alphabets through _merge_columns, moments, ThresholdOptimizer fit/predict vs MetricFrame's partition.", extra=", Lean 4", category="proof"),
+    "C14": _c("P: _get_labels_for_confusion_matrix for every number of distinct values x pos_label given/None x int/str; the four rates return their own cell of sklearn's row-normalised "
+              "confusion matrix with the caller's labels and weights; selection_rate/mean_prediction return a 0-d value for every n>=1." + _B + "all vectors up to n=3 (5 thorough) x 7 encodings "
+              "x weights against exact rationals.", note="Trusted: sklearn.metrics.confusion_matrix and numpy.unique contracts."),
+    "C15": _c("P: CorrelationRemover.fit stores the per-column mean of the sensitive block and the least-squares coefficients on the column-centred block; transform is "
+              "alpha*(Z-(S-mean)beta)+(1-alpha)*Z cell by cell with the stored mean/coefficients, any shape; lemma cov.zero." + _B + "random/collinear/constant matrices vs lstsq on "
+              "explicitly centred data, covariance at alpha=1, transform on fresh data.", note="Trusted: lstsq normal equations; _split_X contract (bounded)."),
+    "C16": _c("S (all real values, bounded tensor shapes up to 3x2 quick / 4x2 thorough): the projected-gradient update block of the torch and tensorflow engines executed symbolically "
+              "from the real source: exact formula with tiny>0 and Frobenius orthogonality for tiny=0; TF optimiser wiring (adversary follows its own plain gradient)." + _B +
+              "real torch partial_fit with SGD(lr=1) against autograd + the formula.", note="Autograd/optimisers assumed; the TF engine cannot be executed here (static only)."),
+    "C17": _c("P: the epoch/batch loop nest of _AdversarialFairness.fit with ghost traces for 0/1/2 callbacks (slices, step numbers, three exit kinds, any n/batch_size/epochs/max_iter), "
+              "_binary_predictor_function (>= threshold, classifier fixes 0.5), _set_predictor_function (arg-max one-hot, identity)." + _B + "recording backend over all small configurations; "
+              "fit vs the same slices through partial_fit with torch; predict label space."),
+    "C18": _c("P: generate_single_bootstrap_sample uses data.sample(frac=1, replace=True, random_state=seed, axis=0, ignore_index=True) and evaluates the metrics on that resample; "
+              "generate_bootstrap_samples produces exactly n_samples results, the k-th a function of (integer seed, k) - loop invariant for any n_samples." + _B + "ci result shapes, "
+              "ordering in the quantile, reproducibility, count = n, constant metrics.", note="np.quantile monotonicity and the 'positive width' clause are bounded / observation only."),
+    "C19": _c("P: frame conditions F1-F5 (no constructor parameter assigned, parameter objects not mutated, reads only parameters before writing, returns self, prediction writes nothing) "
+              "for six estimator classes by a flow-sensitive effect analysis of the real ASTs; 5 obligations fail = the recorded known findings." + _B + "all call sequences up to length "
+              "3/4 over fit/predict/pickle/clone.", note="Pickle round trips are run-time only."),
+    "C20": _c("P: 'normal return => valid input' for _validate_and_reformat_input (36 rank patterns, all flags/dimensions symbolic), UtilityParity/ErrorRate/GridSearch/ThresholdOperation "
+              "constructors, _calculate_tradeoff_points (group lacking a label), _get_labels_for_confusion_matrix; validator dominance in 9 entry points." + _B + "defect injection at "
+              "every entry point x argument x container."),
 }
-_PENDING = "check not built yet in this round (work in progress; see DESIGN.md section 10) - nothing is claimed for this property"
-NOT_APPLICABLE = {f"C{i:02d}": _PENDING for i in range(1, 21) if f"C{i:02d}" not in CHECKS}
+NOT_APPLICABLE = {}
